@@ -67,6 +67,9 @@ pub struct GenCfg {
     /// C13: readout frames to emit, in order, instead of generated conforming frames (first link
     /// only). When the plan is exhausted conforming frames follow.
     pub frame_plan: Vec<FrameSpec>,
+    /// Non-stave mode: the last data-carrying trigger of a page (1 page in 3) is topped up with lane data
+    /// until the page holds exactly this many words (0 = off): pages at and around the size limits.
+    pub fill_page_words: usize,
 }
 
 /// One planned readout frame: the lanes with their chips, and the seed of the pixel-hit content.
@@ -102,6 +105,7 @@ impl GenCfg {
             share_link_ids: false,
             alias_staves: false,
             frame_plan: Vec::new(),
+            fill_page_words: 0,
         }
     }
 }
@@ -554,6 +558,16 @@ impl<'a> LinkGen<'a> {
                         pending = Some(Pending { tdh, rest: tail });
                         break;
                     } else {
+                        if is_last_trigger && !cfg.stave_mode && cfg.fill_page_words > ws.len() + data.len() + 1 && self.rng.chance(1, 3) {
+                            // a page filled to an exact size
+                            let want = cfg.fill_page_words - ws.len() - 1;
+                            while data.len() < want {
+                                let id = *self.rng.pick(&self.lanes);
+                                let mut nine = [0u8; 9];
+                                self.rng.fill(&mut nine);
+                                data.push(words::data_word(id, &nine));
+                            }
+                        }
                         for w in data {
                             ws.push(WordInfo { kind: Kind::Data, word: w });
                             data_seen = true;
@@ -610,6 +624,8 @@ impl<'a> LinkGen<'a> {
             // pad to a 16-byte boundary like the readout does
             (16 - (words.len() * 10) % 16) % 16
         };
+        // (a payload never exceeds what the offset-to-next field may say: 10 000 bytes)
+        let padding = padding.min(10_000usize.saturating_sub(words.len() * 10));
         let rdh = Rdh {
             version: self.cfg.version,
             fee_id: self.fee,
@@ -650,7 +666,10 @@ pub fn gen_conforming(cfg: &GenCfg, rng: &mut Rng) -> Stream {
                 break l;
             }
             if used_links.len() >= 13 {
-                break rng.range(16, 255) as u8;
+                let l = rng.range(16, 255) as u8;
+                if !used_links.contains(&l) {
+                    break l;
+                }
             }
         };
         used_links.push(link_id);
